@@ -696,4 +696,26 @@ theorem liftLeaves_no_panic (env : KeyEnv) : ∀ ls : List Ms, liftLeaves env ls
       | ok qs => simp
 
 
+/-! ## E. the specification's "mentions a raw key hash" is the model's `noRaw` -/
+
+mutual
+theorem mentionsRaw_eq : ∀ ms : Ms, mentionsRaw ms = !noRaw ms
+  | .tru | .fls | .pkK _ | .pkH _ | .rawPkH _ | .after _ | .older _ | .hash _ _
+  | .multi _ _ | .sortedMulti _ _ | .multiA _ _ | .sortedMultiA _ _ => by simp [mentionsRaw, noRaw]
+  | .alt x | .swap x | .check x | .dupIf x | .verify x | .nonZero x | .zeroNotEqual x => by
+    simp only [mentionsRaw, noRaw]; exact mentionsRaw_eq x
+  | .andV l r | .andB l r | .orB l r | .orD l r | .orC l r | .orI l r => by
+    simp only [mentionsRaw, noRaw, mentionsRaw_eq l, mentionsRaw_eq r]
+    cases noRaw l <;> cases noRaw r <;> rfl
+  | .andOr a b c => by
+    simp only [mentionsRaw, noRaw, mentionsRaw_eq a, mentionsRaw_eq b, mentionsRaw_eq c]
+    cases noRaw a <;> cases noRaw b <;> cases noRaw c <;> rfl
+  | .thresh k xs => by simp only [mentionsRaw, noRaw]; exact mentionsRawL_eq xs
+theorem mentionsRawL_eq : ∀ xs : MsList, mentionsRawL xs = !noRawList xs
+  | .nil => by simp [mentionsRawL, noRawList]
+  | .cons x xs => by
+    simp only [mentionsRawL, noRawList, mentionsRaw_eq x, mentionsRawL_eq xs]
+    cases noRaw x <;> cases noRawList xs <;> rfl
+end
+
 end MsVerif.Lift
